@@ -21,6 +21,7 @@ pub mod rib;
 pub mod ribq;
 pub mod gate;
 pub mod roto;
+pub mod manager;
 
 /// A pause-point handler installed per thread by a harness.
 pub type PointFn = Arc<dyn Fn(&'static str) + Send + Sync>;
